@@ -17,6 +17,7 @@ import (
 	"os"
 	"path/filepath"
 	"strconv"
+	"sync"
 	"testing"
 	"time"
 
@@ -182,6 +183,66 @@ func apiRun(tr *kTrace, id string, salt int64) {
 // rebuilt (they grow with the shard's map and are reset after enough first sightings). A Set may be
 // refused only for a key the cache does not hold: every key that a Get has just found must be
 // accepted when it is written again.
+// apiBulk: one write that has to displace hundreds of resident entries (a heavy entry set into a cache full of
+// unit entries, directly or by a cost update of a resident key). When Wait returns the displacement has
+// happened and has been reported: EstimatedSize is within MaxSize and equals what was stored minus what the
+// listener was told, Len likewise (C02, C20, C05). Counts only - the keys do not fit the observer's key domain.
+func apiBulk(tr *kTrace, id string, salt int64) {
+	rnd := rand.New(rand.NewSource(salt))
+	maxsize := 300 + rnd.Intn(500)
+	heavy := maxsize/2 + rnd.Intn(maxsize/3)
+	var notified, notifiedCost int64
+	costOf := map[int]int64{}
+	var mu sync.Mutex
+	c, err := theine.NewBuilder[int, int](int64(maxsize)).RemovalListener(func(k int, v int, r theine.RemoveReason) {
+		mu.Lock()
+		notified++
+		notifiedCost += costOf[k]
+		mu.Unlock()
+	}).Build()
+	if err != nil {
+		tr.emit(map[string]any{"ev": "aerr", "id": id})
+		return
+	}
+	defer c.Close()
+	var stored, storedCost int64
+	for k := 1; k <= maxsize; k++ {
+		mu.Lock()
+		costOf[k] = 1
+		mu.Unlock()
+		if c.Set(k, k, 1) {
+			stored++
+			storedCost++
+		}
+	}
+	c.Wait()
+	update := salt%2 == 1
+	hk := maxsize + 1
+	if update {
+		hk = 1 + rnd.Intn(maxsize) // a resident key becomes heavy (if it is still resident: an update, else an insert)
+	}
+	mu.Lock()
+	_, had := c.Get(hk)
+	old := costOf[hk]
+	costOf[hk] = int64(heavy)
+	mu.Unlock()
+	if c.Set(hk, -1, int64(heavy)) {
+		if had {
+			storedCost += int64(heavy) - old
+		} else {
+			stored++
+			storedCost += int64(heavy)
+		}
+	}
+	c.Wait()
+	mu.Lock()
+	n, nc := notified, notifiedCost
+	mu.Unlock()
+	// an entry that was updated and evicted afterwards is reported with the cost it had when it left
+	tr.emit(map[string]any{"ev": "abulk", "id": id, "maxsize": maxsize, "heavy": heavy, "update": update, "stored": stored, "storedcost": storedCost,
+		"notified": n, "notifiedcost": nc, "est": c.EstimatedSize(), "len": c.Len()})
+}
+
 func apiDoorGrow(tr *kTrace, id string, salt int64) {
 	rnd := rand.New(rand.NewSource(salt))
 	n := 2500 + rnd.Intn(1500)
@@ -257,5 +318,8 @@ func TestVerif_Api(t *testing.T) {
 	}
 	for i := 0; i < 1+n/20; i++ {
 		apiDoorGrow(tr, fmt.Sprintf("door%d", i), base+int64(7000+i))
+	}
+	for i := 0; i < 4+n/20; i++ {
+		apiBulk(tr, fmt.Sprintf("bulk%d", i), base+int64(9000+i))
 	}
 }
